@@ -267,7 +267,7 @@ Section Cut.
   Let c' := cut_c c k.
 
   Lemma cut_file_ok : file_ok (g, c).
-  Proof.
+  Proof using All.
     pose proof (rp_files m _ R) as Hf. rewrite Forall_forall in Hf. apply Hf.
     apply in_or_app. right. left. reflexivity.
   Qed.
@@ -276,7 +276,7 @@ Section Cut.
     wfc c' /\ c_first c' = c_first c /\ c_split c' = c_split c /\
     c_end c' = N.min k (c_end c) /\ vis c' = below k (vis c) /\
     strip_log_to (conc c) k = Ok (conc c').
-  Proof.
+  Proof using All.
     destruct cut_file_ok as (W & _ & _ & Hle & Hmax & _). apply cut_c_facts; assumption.
   Qed.
 
@@ -286,7 +286,7 @@ Section Cut.
     | [] => g_close g = false
     | b :: _ => g_close g = true /\ k < c_end c /\ g_end g = c_end c
     end.
-  Proof.
+  Proof using All.
     pose proof (rp_chain m _ R) as [Hl Ho]. pose proof cut_file_ok as Hgc.
     pose proof (rp_files m _ R) as Hf. rewrite Forall_forall in Hf.
     assert (Hbok : forall b, In b B -> file_ok b) by (intros b Hin; apply Hf; apply in_or_app; right; right; exact Hin).
@@ -304,7 +304,7 @@ Section Cut.
   Lemma cut_loop :
     strip_loop m (map fst (A ++ (g, c) :: B)) k 0
     = (drop_all (set_actor m (g_id g) (conc c')) (map f_id B), length B).
-  Proof.
+  Proof using All.
     rewrite map_app, strip_loop_app.
     rewrite strip_loop_untouched.
     2:{ apply Forall_forall. intros ga Hin. apply in_map_iff in Hin. destruct Hin as ([ga' ca] & <- & Hin).
@@ -333,7 +333,7 @@ Section Cut.
 
   Lemma cut_visible :
     files_vis (A ++ [(g, c')]) = below k (files_vis (A ++ (g, c) :: B)).
-  Proof.
+  Proof using All.
     pose proof (rp_files m _ R) as Hf. rewrite Forall_forall in Hf.
     change (A ++ (g, c) :: B) with (A ++ [(g, c)] ++ B).
     rewrite !files_vis_app, !below_app, !files_vis_one. cbn [snd].
@@ -434,4 +434,272 @@ Proof.
   - apply (ids_pos_prefix A B (g, c) (reopen_f (g, c')) (rp_ids m _ R) eq_refl). exact Hhead.
   - rewrite last_id_snoc. reflexivity.
   - rewrite Hlim. cbn [set_actor m_limit]. apply (rp_limit m _ R).
+Qed.
+
+(** * delete-from *)
+
+(** The head of the catalogue may be a snapshot-pointer file with id 0.  If the cut falls into that
+    file while later files exist (k = the pointer index and the next file starts exactly behind
+    it), the file with id 0 would become the only, current file: the id discipline [ids_pos] - the
+    next pointer file gets id (first id - 1) - is lost.  This input class is excluded by
+    [cut_head_ok] (ManagerInv.v). *)
+Lemma floor_ok_prefix fl (A B : list mfile) g g' c c' :
+  c_first c' = c_first c -> c_split c' = c_split c -> c_end c' <= c_end c -> g_id g' = g_id g ->
+  floor_ok fl (A ++ (g, c) :: B) -> floor_ok fl (A ++ [(g', c')]).
+Proof.
+  intros Hf Hs He Hid [H Hh]. split.
+  - apply Forall_app in H. destruct H as [H1 H2].
+    apply Forall_app. split; [exact H1|]. inversion H2 as [|? ? Hx _]; subst.
+    constructor; [|constructor]. cbn [snd] in *. rewrite Hf, Hs. exact Hx.
+  - destruct A as [|a0 A']; cbn [app] in *; [|exact Hh].
+    unfold f_id in *. cbn [fst snd] in *. rewrite Hid. intros H0. specialize (Hh H0). lia.
+Qed.
+
+Definition strip_post (m m' : mgr) (fs fs' : list mfile) (k : N) : Prop :=
+  mgr_rep m' fs' /\
+  m_limit m' = m_limit m /\ m_pre_ptr m' = m_pre_ptr m /\
+  files_vis fs' = below k (files_vis fs) /\
+  files_first fs' = files_first fs /\
+  (forall e, files_end fs = Some e -> files_end fs' = Some (N.min k e)) /\
+  (forall fl, floor_ok fl fs -> floor_ok fl fs').
+
+Lemma files_end_ge_split : forall (fs : list mfile) f e,
+  Forall file_ok (f :: fs) -> links (f :: fs) -> files_end (f :: fs) = Some e -> c_split (snd f) <= e.
+Proof.
+  induction fs as [|f2 fs IH]; intros f e Hok Hl He.
+  - unfold files_end in He. change (last_opt [f]) with (Some f) in He. inversion He; subst.
+    inversion Hok as [|? ? Hf _]; subst. destruct f as [g c]. destruct Hf as (_ & _ & _ & Hle & _). exact Hle.
+  - unfold files_end in He. rewrite last_opt_cons2 in He. fold (files_end (f2 :: fs)) in He.
+    inversion Hok as [|? ? Hf Hok']; subst. cbn [links] in Hl. destruct Hl as [(Hlk & _ & _) Hl'].
+    specialize (IH f2 e Hok' Hl' He). destruct f as [g c]. destruct Hf as (_ & _ & _ & Hle & _).
+    cbn [snd] in *. lia.
+Qed.
+
+(** the manager after a delete-from that dropped files *)
+Lemma mgr_strip_dropped m (A B : list mfile) g c k :
+  mgr_rep m (A ++ (g, c) :: B) -> k < U64MAX -> c_split c <= k ->
+  Forall (fun a => g_close (fst a) = true /\ c_end (snd a) <= k) A ->
+  Forall (fun b => k < g_start (fst b)) B -> B <> [] ->
+  mgr_strip m k =
+  save_logs (set_cur (set_logs (drop_all (set_actor m (g_id g) (conc (cut_c c k))) (map f_id B))
+                               (map fst (A ++ [reopen_f (g, cut_c c k)]))) (Some (g_id g))).
+Proof.
+  intros R Hk Hc HA HB HBne.
+  pose proof (cut_loop m A B g c k R Hk Hc HA HB) as Hloop.
+  set (c' := cut_c c k) in *.
+  unfold mgr_strip. rewrite (rp_logs m _ R), Hloop.
+  destruct B as [|b B']; [exfalso; apply HBne; reflexivity|].
+  set (Bs := b :: B') in *.
+  change (0 <? length Bs)%nat with true. cbv iota.
+  set (m1 := drop_all (set_actor m (g_id g) (conc c')) (map f_id Bs)).
+  destruct (drop_all_fields (map f_id Bs) (set_actor m (g_id g) (conc c'))) as (Hlogs & _).
+  fold m1 in Hlogs. cbn [set_actor m_logs] in Hlogs.
+  rewrite Hlogs, (rp_logs m _ R).
+  assert (Hfirstn : firstn (length (map fst (A ++ (g, c) :: Bs)) - length Bs) (map fst (A ++ (g, c) :: Bs))
+                    = map fst (A ++ [(g, c)])).
+  { assert (Hm : map fst (A ++ (g, c) :: Bs) = map fst (A ++ [(g, c)]) ++ map fst Bs).
+    { rewrite !map_app. cbn [map]. rewrite <- app_assoc. reflexivity. }
+    rewrite Hm. etransitivity; [|apply (firstn_app_sub (map fst (A ++ [(g, c)])) (map fst Bs))].
+    f_equal. f_equal. symmetry. apply map_length. }
+  rewrite Hfirstn, reopen_last_map.
+  assert (Hlogs' : map fst (A ++ [reopen_f (g, c)]) = map fst (A ++ [reopen_f (g, c')])).
+  { rewrite !map_app. reflexivity. }
+  rewrite Hlogs'.
+  assert (Hlast : last_opt (map fst (A ++ [reopen_f (g, c')])) = Some (fst (reopen_f (g, c')))).
+  { rewrite map_app. cbn [map]. apply last_opt_snoc. }
+  rewrite Hlast.
+  pose proof (rep_nodup m _ R) as Hnd.
+  assert (HnB : ~ In (g_id g) (map f_id Bs)).
+  { intros Hin. rewrite map_app in Hnd. cbn [map] in Hnd. apply NoDup_remove_2 in Hnd.
+    apply Hnd. apply in_or_app. right. exact Hin. }
+  assert (Hact : lookup (g_id g) (m_actors m1) = Some (conc c')).
+  { unfold m1. rewrite drop_all_actors_notin by exact HnB. cbn [set_actor m_actors]. apply lookup_set_same. }
+  unfold actor_of. cbn [set_logs m_actors reopen_f fst g_id]. rewrite Hact. reflexivity.
+Qed.
+
+Lemma mgr_strip_cut m (A B : list mfile) g c k :
+  mgr_rep m (A ++ (g, c) :: B) -> k < U64MAX -> c_split c <= k ->
+  Forall (fun a => g_close (fst a) = true /\ c_end (snd a) <= k) A ->
+  Forall (fun b => k < g_start (fst b)) B ->
+  (A = [] -> B <> [] -> 1 <= g_id g) ->
+  exists fs', strip_post m (mgr_strip m k) (A ++ (g, c) :: B) fs' k.
+Proof.
+  intros R Hk Hc HA HB Hhead.
+  pose proof (cut_loop m A B g c k R Hk Hc HA HB) as Hloop.
+  pose proof (cut_facts m A B g c k R Hk Hc HA HB) as (W' & Hf' & Hs' & He' & Hv' & _).
+  pose proof (cut_file_end m A B g c k R Hk Hc HA HB) as Hend.
+  pose proof (cut_visible m A B g c k R Hk Hc HA HB) as Hvis.
+  pose proof (cut_file_ok m A B g c k R Hk Hc HA HB) as (W & Hfirst & Hsp & Hle & Hmax & _).
+  pose proof (mgr_strip_dropped m A B g c k R Hk Hc HA HB) as Hdrop.
+  set (c' := cut_c c k) in *.
+  assert (Hle' : c_split c' <= c_end c') by lia.
+  assert (Hmax' : c_end c' < U64MAX) by lia.
+  destruct B as [|b B'].
+  - (* nothing dropped: the cut file is the last, open file *)
+    unfold mgr_strip. rewrite (rp_logs m _ R), Hloop.
+    cbn [length map drop_all]. change (0 <? 0)%nat with false. cbv iota.
+    exists (A ++ [(g, c')]). split; [|split; [reflexivity|split; [reflexivity|split; [exact Hvis|split; [|split]]]]].
+    + apply (rep_set_last m A g c c' R W' Hf' Hs' Hle' Hmax').
+    + apply files_first_snoc. exact Hs'.
+    + intros e Hee. rewrite files_end_snoc in *. cbn [snd] in *. inversion Hee; subst. f_equal. exact He'.
+    + intros fl. apply floor_ok_prefix; try assumption; [lia|reflexivity].
+  - (* the files of B are dropped, the cut file is reopened *)
+    set (Bs := b :: B') in *.
+    rewrite Hdrop by discriminate.
+    destruct (drop_all_fields (map f_id Bs) (set_actor m (g_id g) (conc c'))) as (_ & _ & _ & Hptr & Hlim).
+    cbn [set_actor m_pre_ptr m_limit] in Hptr, Hlim.
+    exists (A ++ [reopen_f (g, c')]).
+    split; [|split; [|split; [|split; [|split; [|split]]]]].
+    + apply (rep_cut_reopen m A Bs g c c' R W' Hf' Hs' Hle' Hmax' Hhead).
+    + cbn [save_logs set_cur set_logs m_limit]. exact Hlim.
+    + cbn [save_logs set_cur set_logs m_pre_ptr]. exact Hptr.
+    + transitivity (files_vis (A ++ [(g, c')])); [|exact Hvis].
+      rewrite !files_vis_app, !files_vis_one. reflexivity.
+    + destruct A; cbn [app files_first snd reopen_f]; congruence.
+    + intros e Hee. rewrite files_end_snoc. cbn [snd reopen_f]. f_equal.
+      destruct Hend as (_ & Hke & _).
+      (* the end of the whole catalogue lies above k *)
+      assert (Hke2 : k < e).
+      { pose proof (rp_files m _ R) as Hfiles. pose proof (rp_chain m _ R) as [Hl _].
+        apply Forall_app in Hfiles. destruct Hfiles as [_ Hfiles]. apply links_app in Hl. destruct Hl as (_ & Hl & _).
+        inversion Hfiles as [|? ? _ Hfb]; subst. pose proof Hl as Hl0. cbn [links] in Hl. destruct Hl as [(Hlk & _ & _) Hlb].
+        assert (HeB : files_end Bs = Some e).
+        { revert Hee. unfold files_end, Bs. replace (A ++ (g, c) :: b :: B') with ((A ++ [(g, c)]) ++ b :: B') by (rewrite <- app_assoc; reflexivity).
+          destruct (list_snoc_cases (b :: B')) as [HH|(l0 & z & HH)]; [discriminate|]. rewrite HH, app_assoc, !last_opt_snoc. auto. }
+        pose proof (files_end_ge_split B' b e Hfb Hlb HeB) as Hge. cbn [snd] in Hlk. lia. }
+      lia.
+    + intros fl. unfold reopen_f. cbn [fst snd]. apply floor_ok_prefix; try assumption; [lia|reflexivity].
+Qed.
+
+(** the decomposition of a catalogue at an admissible cut *)
+Lemma cut_decompose0 m (fs : list mfile) k :
+  mgr_rep m fs -> cut_ok fs k ->
+  exists A g c B, fs = A ++ (g, c) :: B /\ k < U64MAX /\ c_split c <= k /\
+    Forall (fun a => g_close (fst a) = true /\ c_end (snd a) <= k) A /\
+    Forall (fun b => k < g_start (fst b)) B.
+Proof.
+  intros R ((a & Ha & Hak) & Hk & Hall).
+  destruct fs as [|f fs0]; [discriminate|]. cbn [files_first] in Ha. inversion Ha; subst a. clear Ha.
+  pose proof (rp_files m _ R) as Hok. pose proof (rp_chain m _ R) as [Hl _].
+  destruct (cut_split k fs0 f Hok Hl Hak) as (A & [g c] & B & E & Hx & HA & HB0). cbn [snd] in Hx.
+  exists A, g, c, B. split; [exact E|]. split; [exact Hk|]. split; [exact Hx|]. split; [exact HA|].
+  rewrite E in Hall. apply Forall_app in Hall. destruct Hall as [_ Hall]. inversion Hall as [|? ? _ HallB]; subst.
+  rewrite Forall_forall in *. intros b Hin. specialize (HB0 b Hin). specialize (HallB b Hin). cbv beta in *. lia.
+Qed.
+
+Lemma cut_decompose m (fs : list mfile) k :
+  mgr_rep m fs -> cut_ok fs k -> cut_head_ok fs k ->
+  exists A g c B, fs = A ++ (g, c) :: B /\ k < U64MAX /\ c_split c <= k /\
+    Forall (fun a => g_close (fst a) = true /\ c_end (snd a) <= k) A /\
+    Forall (fun b => k < g_start (fst b)) B /\
+    (A = [] -> B <> [] -> 1 <= g_id g).
+Proof.
+  intros R Hcut Hh.
+  destruct (cut_decompose0 m fs k R Hcut) as (A & g & c & B & E & Hk & Hc & HA & HB).
+  exists A, g, c, B. repeat (split; [assumption|]).
+  intros -> HBne. cbn [app] in E. destruct B as [|b B']; [exfalso; apply HBne; reflexivity|].
+  subst fs. unfold cut_head_ok in Hh. destruct Hh as [Hh|Hh]; [exact Hh|exfalso].
+  cbn [snd] in Hh.
+  pose proof (cut_file_end m [] (b :: B') g c k R Hk Hc HA HB) as (_ & Hke & _). lia.
+Qed.
+
+(** delete-from k keeps the catalogue invariant, removes exactly the visible records with index >= k
+    and keeps the floor of the snapshot pointers *)
+Theorem mgr_strip_rep_floor : forall m (fs : list mfile) k,
+  mgr_rep m fs -> cut_ok fs k -> cut_head_ok fs k ->
+  exists fs', mgr_rep (mgr_strip m k) fs' /\
+    m_limit (mgr_strip m k) = m_limit m /\ m_pre_ptr (mgr_strip m k) = m_pre_ptr m /\
+    files_vis fs' = below k (files_vis fs) /\
+    files_first fs' = files_first fs /\
+    (forall e, files_end fs = Some e -> files_end fs' = Some (N.min k e)) /\
+    (forall fl, floor_ok fl fs -> floor_ok fl fs').
+Proof.
+  intros m fs k R Hcut Hh.
+  destruct (cut_decompose m fs k R Hcut Hh) as (A & g & c & B & -> & Hk & Hc & HA & HB & Hhead).
+  exact (mgr_strip_cut m A B g c k R Hk Hc HA HB Hhead).
+Qed.
+
+Theorem mgr_strip_rep_alt : forall m (fs : list mfile) k,
+  mgr_rep m fs -> cut_ok fs k -> cut_head_ok fs k ->
+  exists fs', mgr_rep (mgr_strip m k) fs' /\
+    m_limit (mgr_strip m k) = m_limit m /\ m_pre_ptr (mgr_strip m k) = m_pre_ptr m /\
+    files_vis fs' = below k (files_vis fs) /\
+    files_first fs' = files_first fs /\
+    (forall e, files_end fs = Some e -> files_end fs' = Some (N.min k e)).
+Proof.
+  intros m fs k R Hcut Hh.
+  destruct (mgr_strip_rep_floor m fs k R Hcut Hh) as (fs' & H1 & H2 & H3 & H4 & H5 & H6 & _).
+  exists fs'. tauto.
+Qed.
+
+(** * the side condition [cut_head_ok] is needed *)
+
+(** when the cut falls into a head file with id 0 and later files exist, the result has a single
+    range with id 0, which no file list can represent ([ids_pos]) *)
+Lemma mgr_strip_head0_no_rep m g c b (B' : list mfile) k :
+  mgr_rep m ((g, c) :: b :: B') -> cut_ok ((g, c) :: b :: B') k -> g_id g = 0 -> k < c_end c ->
+  forall fs', ~ mgr_rep (mgr_strip m k) fs'.
+Proof.
+  intros R Hcut Hid Hke fs' R'.
+  destruct (cut_decompose0 m _ k R Hcut) as (A & g1 & c1 & B & E & Hk & Hc & HA & HB).
+  destruct A as [|a A'].
+  - cbn [app] in E. inversion E; subst g1 c1 B. clear E.
+    change ((g, c) :: b :: B') with ([] ++ (g, c) :: b :: B') in R.
+    pose proof (mgr_strip_dropped m [] (b :: B') g c k R Hk Hc HA HB ltac:(discriminate)) as Hd.
+    pose proof (rp_logs _ _ R') as Hlogs. pose proof (rp_ids _ _ R') as Hids.
+    rewrite Hd in Hlogs. cbn [save_logs set_cur set_logs m_logs app map reopen_f fst] in Hlogs.
+    destruct fs' as [|f' [|f2 fs'']]; cbn [map] in Hlogs; try discriminate.
+    inversion Hlogs as [Hg]. cbn [ids_pos] in Hids. destruct Hids as [_ [H1|(f2 & r & Hr & _)]]; [|discriminate].
+    unfold f_id in H1. rewrite <- Hg in H1. cbn [g_id] in H1. lia.
+  - cbn [app] in E. inversion E; subst a. inversion HA as [|? ? [_ Ha] _]; subst. cbn [snd] in Ha. lia.
+Qed.
+
+(** such a state exists: a pointer file (id 0) holding the record with index 5, followed by the
+    empty, open file 1 that starts at index 6; a delete-from 5 satisfies [cut_ok] *)
+Theorem mgr_strip_rep_needs_head_ok :
+  exists m (fs : list mfile) k, mgr_rep m fs /\ cut_ok fs k /\ forall fs', ~ mgr_rep (mgr_strip m k) fs'.
+Proof.
+  set (x := mkRec 5 1 []).
+  assert (Hok : rec_ok x).
+  { unfold rec_ok, x. cbn [r_index r_term r_value length]. repeat split; try lia. constructor. }
+  assert (Hne : rec_nonempty x) by (left; unfold x; cbn [r_index]; lia).
+  pose proof (wfc_fresh 4096 5 1 5 ltac:(lia)) as W00.
+  destruct (write_step (c_fresh 4096 5 1 5) x W00 Hok Hne) as (c0 & mk & Hw & W0 & Hsp0 & Hf0 & Hmk).
+  assert (Hall0 : c_all c0 = [x]).
+  { destruct mk.
+    - destruct Hmk as [_ H]. exact H.
+    - destruct Hmk as [_ H]. exact H.
+    - destruct Hmk as [_ H]. rewrite fresh_not_full in H by (unfold HDR_LEN; lia). discriminate.
+    - destruct Hmk as [H _]. exfalso. apply H. rewrite abs_end. reflexivity. }
+  unfold c_fresh in Hsp0, Hf0. cbn [c_split c_first] in Hsp0, Hf0.
+  assert (Hsp0' : c_split c0 = 5) by lia. clear Hsp0.
+  assert (He0 : c_end c0 = 6) by (unfold c_end; rewrite Hf0, Hall0; unfold nlen; cbn [length]; lia).
+  set (c1 := c_fresh 4096 6 1 6).
+  set (g0 := mkRange 0 1 5 1 5 true). set (g1 := mkRange 1 1 6 0 6 false).
+  set (m := mkMgr [g0; g1] [g0; g1] [(0, conc c0); (1, conc c1)] [] (Some 1) None 4096).
+  assert (R : mgr_rep m [(g0, c0); (g1, c1)]).
+  { constructor; cbn [m m_logs m_saved m_actors m_disk m_cur m_limit].
+    - reflexivity.
+    - reflexivity.
+    - reflexivity.
+    - reflexivity.
+    - constructor; [|constructor; [|constructor]].
+      + unfold file_ok, g0. cbn [g_start g_split g_close g_count].
+        split; [exact W0|]. split; [exact Hf0|]. split; [lia|]. split; [lia|].
+        split; [unfold U64MAX; lia|]. intros _. rewrite Hall0. reflexivity.
+      + apply (file_ok_fresh 4096 1 1 6); unfold U64MAX; lia.
+    - split; [|reflexivity]. cbn [links]. split; [|auto].
+      unfold link, f_id, g0, g1, c1, c_fresh. cbn [fst snd g_id g_close c_split]. rewrite He0. split; [lia|split; [lia|reflexivity]].
+    - cbn [ids_pos]. split; [constructor; [unfold f_id, g1; cbn [fst g_id]; lia|constructor]|].
+      right. eexists. eexists. split; [reflexivity|]. reflexivity.
+    - reflexivity.
+    - unfold HDR_LEN. lia. }
+  exists m, [(g0, c0); (g1, c1)], 5. split; [exact R|]. split.
+  - split; [exists 5; split; [cbn [files_first snd]; f_equal; exact Hsp0'|lia]|].
+    split; [unfold U64MAX; lia|]. constructor; [cbn [fst snd]; lia|]. constructor; [|constructor].
+    unfold g1. cbn [fst g_start]. lia.
+  - apply (mgr_strip_head0_no_rep m g0 c0 (g1, c1) [] 5 R); [|reflexivity|lia].
+    split; [exists 5; split; [cbn [files_first snd]; f_equal; exact Hsp0'|lia]|].
+    split; [unfold U64MAX; lia|]. constructor; [cbn [fst snd]; lia|]. constructor; [|constructor].
+    unfold g1. cbn [fst g_start]. lia.
 Qed.
